@@ -177,7 +177,7 @@ def _make_value(rng, depth, lf, hashable_only=False):
         k = rng.choice(['tuple', 'frozenset', 'NT', 'MyTuple'])
     else:
         k = rng.choice(['list', 'tuple', 'set', 'frozenset', 'dict', 'OrderedDict', 'deque', 'dequemax', 'NT', 'defaultdict',
-                        'Counter', 'MyList', 'MyDict', 'MyTuple', 'MySet', 'dict', 'list'])
+                        'Counter', 'MyList', 'MyDict', 'MyTuple', 'MySet', 'dict', 'list', 'exc', 'exc'])
     n = rng.randint(0, 3)
     child_hash = hashable_only or k in ('set', 'frozenset', 'MySet')
     ch = [rand_value(rng, depth - 1, lf, child_hash) for _ in range(n)]
@@ -206,6 +206,10 @@ def _make_value(rng, depth, lf, hashable_only=False):
         return collections.deque(ch, maxlen=5)
     if k == 'NT':
         return NT(a=ch[0] if ch else lf.next(), b=ch[1] if len(ch) > 1 else lf.next())
+    if k == 'exc':
+        # an exception is printed as a call of its class with its args: one argument (hugged when it is a plain list / dict / tuple display,
+        # a nesting level of its own when it is a namedtuple, a subclass instance or any other call) or several
+        return rng.choice([KeyError, ValueError, LookupError])(*ch)
     if k == 'MyList':
         return MyList(ch)
     if k == 'MyTuple':
@@ -234,8 +238,13 @@ def call_of(n, name):
 
 
 def hugged(n):
-    return (isinstance(n, ast.Call) and len(n.args) == 1 and not n.keywords and
-            isinstance(n.args[0], (ast.List, ast.Dict, ast.Tuple, ast.Set)))   # Set: only set-subclass wrappers occur in the generators
+    if not (isinstance(n, ast.Call) and len(n.args) == 1 and not n.keywords):
+        return False
+    if isinstance(n.args[0], (ast.List, ast.Dict, ast.Tuple)):
+        return True
+    # a set display is hugged only by the printer of set subclasses (it prints the elements itself); a call-style printer (exception, ...) hugs
+    # list / dict / tuple only, a set argument is a nesting level of its own
+    return isinstance(n.args[0], ast.Set) and (dotted(n.func) or '').endswith('MySet')
 
 
 def is_placeholder_for(full, lim):
